@@ -95,8 +95,9 @@ Fixpoint dec_digits (fuel : nat) (n : N) (acc : text) : text :=
   match fuel with
   | O => acc
   | S f =>
-      let acc' := (48 + n mod 10) :: acc in
-      if n / 10 =? 0 then acc' else dec_digits f (n / 10) acc'
+      let (q, r) := N.div_eucl n 10 in
+      let acc' := (48 + r) :: acc in
+      if q =? 0 then acc' else dec_digits f q acc'
   end.
 
 Definition N_dec (n : N) : text := dec_digits (S (N.to_nat (N.log2 n))) n [].
@@ -319,6 +320,8 @@ Fixpoint pyeq (a b : pyval) : bool :=
   match a, b with
   | PNone, PNone => true
   | PUndef, PUndef => true
+  | PNone, PUndef => true                    (* UndefinedType.__eq__ accepts None ... *)
+  | PUndef, PNone => true                    (* ... also reflected (the hashes differ) *)
   | PStr s, PStr t => nat_list_eqb s t
   | PBytes s, PBytes t => nat_list_eqb s t
   | PObj i _ _, PObj j _ _ => i =? j
